@@ -156,16 +156,18 @@ def task_cands(a, env):
         if c not in seen:
             seen.add(c)
             r.dn += 1
-        if got == exp and exp is False:
+        d_ = MB.decode_sig(c) if (got == exp and exp is False) else None
+        if d_ is not None:
             # the same refused string presented again straight away: the verdict is a function of the
-            # arguments, not of what was decoded last
-            got = BL.verdict(C.Verify, pk, msg, c) if target == "sig" else BL.verdict(C.PopVerify, pk, c)
-            r.ev += 1
-            if got != exp:
-                lbl = lbl + " (second presentation)"
+            # arguments, not of what was decoded last (strings that decode to a curve point cost a subgroup
+            # check or a pairing each time: every third of those)
+            if d_[0] != "ok" or idx % 3 == 0:
+                got = BL.verdict(C.Verify, pk, msg, c) if target == "sig" else BL.verdict(C.PopVerify, pk, c)
+                r.ev += 1
+                if got != exp:
+                    lbl = lbl + " (second presentation)"
             # classes: by candidate label and by how the model says the string fails (does not decode /
             # decodes to a point outside the subgroup / is another valid signature)
-            d_ = MB.decode_sig(c)
             cls_ = (lbl.split(":")[0], "undecodable" if d_[0] != "ok" else "decodable")
             if got == exp and cls_ not in after_honest and sum(1 for x in after_honest if x[1] == cls_[1]) < a.get("after_honest", 2):
                 # one string per class: the honest signature is accepted, then the refused string twice
